@@ -75,6 +75,15 @@ func sweepQueries(u *universe, repos []string) []Query {
 			w := fmt.Sprintf("b%d", i)
 			qs = append(qs, Query{K: "GetBlob", Repo: r, Dig: d, What: w}, Query{K: "ResolveBlob", Repo: r, Dig: d, What: w})
 			n := int64(len(b))
+			if n > 5 {
+				// a long blob: boundary offsets only
+				for _, o0 := range []int64{0, 1, n - 1, n} {
+					for _, o1 := range []int64{-1, 1, n - 1, n, n + 1} {
+						qs = append(qs, Query{K: "GetBlobRange", Repo: r, Dig: d, O0: o0, O1: o1, What: w})
+					}
+				}
+				continue
+			}
 			for o0 := int64(0); o0 <= n+1; o0++ {
 				for o1 := int64(-1); o1 <= n+1; o1++ {
 					qs = append(qs, Query{K: "GetBlobRange", Repo: r, Dig: d, O0: o0, O1: o1, What: w})
